@@ -9,6 +9,8 @@ import (
 
 	"github.com/tokenized/logger"
 	"github.com/tokenized/pkg/bitcoin"
+	"github.com/tokenized/pkg/wire"
+	"github.com/tokenized/spynode/internal/handlers"
 	"github.com/tokenized/spynode/internal/platform/config"
 )
 
@@ -32,4 +34,8 @@ func shortStack() string {
 		}
 	}
 	return strings.Join(out, " <- ")
+}
+
+func handlersTxData(tx *wire.MsgTx, trusted, safe bool) handlers.TxData {
+	return handlers.TxData{Msg: tx, Trusted: trusted, Safe: safe, ConfirmedHeight: -1}
 }
